@@ -1295,10 +1295,15 @@ Definition exec_streams (now : Z) (d : db) (name : bytes) (parts : list frame) (
 
 (** ---- WATCH (C08): the keys on which the engine calls mark_modified ----
     xadd / xadd_with_id mark on success, xtrim / xdel when something was removed.  The
-    consumer-group commands never mark for what they do to the group (pending entries,
-    cursor, consumers live behind a shared Arc outside the engine: finding
-    stream-group-writes-unmarked); they mark only through storage.get removing an expired
-    key and through set_value of XGROUP CREATE ... MKSTREAM. *)
+    consumer-group commands mark through storage.get removing an expired key, through
+    set_value of XGROUP CREATE ... MKSTREAM, and - after ed8ba04 - through
+    StorageEngine::mark_key_modified when the handler changed the group state (pending
+    entries, cursor, consumers live behind a shared Arc outside the engine): XGROUP CREATE
+    and SETID that answer OK, DESTROY / CREATECONSUMER that answer 1, DELCONSUMER and XCLAIM
+    whenever the group exists, XACK that acknowledged something, XREADGROUP once per stream
+    it reports entries from.  Not marked: an explicit-ID XREADGROUP that reports nothing
+    (it still registers the reader, and bumps the delivery counters of pending entries that
+    were deleted from the stream): finding group-reread-unmarked. *)
 Definition gone_keys (d d' : db) : list bytes :=
   filter (fun k => negb (amem k (d_data d'))) (map fst (d_data d)).
 Definition fresh_keys (d d' : db) : list bytes :=
@@ -1311,6 +1316,43 @@ Definition reborn_keys (d d' : db) : list bytes :=
               | Some _, Some e' => match e_exp e' with None => [fst ke; fst ke] | Some _ => [] end
               | _, _ => []
               end) (d_data d).
+Definition has_group (d : db) (k gn : bytes) : bool :=
+  match get_entry d k with
+  | Some e => match e_val e with VStream s => amem gn (s_groups s) | _ => false end
+  | None => false
+  end.
+(** the streams a successful XREADGROUP reports entries from *)
+Definition reply_keys (reply : frame) : list bytes :=
+  match reply with
+  | FArray l => flat_map (fun f => match f with FArray (FBulk k :: _) => [k] | _ => [] end) l
+  | _ => []
+  end.
+(** storage.mark_key_modified call sites of commands/consumer_groups.rs (ed8ba04) *)
+Definition marks_group_cmd (d' : db) (name : bytes) (parts : list frame) (reply : frame) : list bytes :=
+  if beq name (bs "XGROUP") then
+    match nth_arg parts 1, nth_arg parts 2, nth_arg parts 3 with
+    | Some sub, Some k, Some gn =>
+        let u := upper sub in
+        if beq u (bs "CREATE") || beq u (bs "SETID") then (match reply with FSimple _ => [k] | _ => [] end)
+        else if beq u (bs "DESTROY") || beq u (bs "CREATECONSUMER") then
+          (match reply with FInt n => if n =? 1 then [k] else [] | _ => [] end)
+        else if beq u (bs "DELCONSUMER") then
+          (match reply with FInt _ => if has_group d' k gn then [k] else [] | _ => [] end)
+        else []
+    | _, _, _ => []
+    end
+  else if beq name (bs "XREADGROUP") then reply_keys reply
+  else if beq name (bs "XACK") then
+    match nth_arg parts 1, reply with
+    | Some k, FInt n => if 0 <? n then [k] else []
+    | _, _ => []
+    end
+  else if beq name (bs "XCLAIM") then
+    match nth_arg parts 1, nth_arg parts 2 with
+    | Some k, Some gn => if negb (is_error reply) && has_group d' k gn then [k] else []
+    | _, _ => []
+    end
+  else [].
 Definition marks_streams (d d' : db) (name : bytes) (parts : list frame) (reply : frame) : list bytes :=
   let k1 := match nth_arg parts 1 with Some k => [k] | None => [] end in
   if beq name (bs "XADD") then (match reply with FBulk _ => k1 | _ => [] end)
@@ -1318,5 +1360,5 @@ Definition marks_streams (d d' : db) (name : bytes) (parts : list frame) (reply 
     (match reply with FInt n => if 0 <? n then k1 else [] | _ => [] end)
   else if beq name (bs "XGROUP") || beq name (bs "XREADGROUP") || beq name (bs "XACK") || beq name (bs "XCLAIM")
           || beq name (bs "XPENDING") || beq name (bs "XINFO") then
-    gone_keys d d' ++ reborn_keys d d' ++ fresh_keys d d'
+    gone_keys d d' ++ reborn_keys d d' ++ fresh_keys d d' ++ marks_group_cmd d' name parts reply
   else [].
